@@ -33,7 +33,8 @@ Record facts := mkFacts {
   f_empty_stat : bool;                  (* checkPathIsNotEmpty before the back end in Stat *)
   f_empty_open : bool;                  (* ... GenericOpen *)
   f_empty_openfile : bool;              (* ... OpenFile *)
-  f_empty_create : bool                 (* ... CreateFile *)
+  f_empty_create : bool;                (* ... CreateFile *)
+  f_mkdirall_rechecks : bool            (* MkDirAll: after the back end's MkdirAll, `if err != nil && fs.Exists(dir) { err = nil }` *)
 }.
 
 Definition mguard_eqb (a b : mguard) : bool :=
@@ -78,5 +79,7 @@ Definition write_ok (F : facts) : bool := f_write_create F && f_write_trunc F.
 (* what handle balance needs *)
 Definition handles_ok (F : facts) : bool :=
   f_copyfile_src_close_deferred F && f_copyfile_dst_close_deferred F && f_write_close_deferred F.
+(* what mkdir -p under a lost creation race needs *)
+Definition mkdir_ok (F : facts) : bool := f_mkdirall_rechecks F.
 (* what the empty-name theorem needs *)
 Definition paths_ok (F : facts) : bool := f_empty_stat F && f_empty_open F && f_empty_openfile F.
